@@ -306,6 +306,7 @@ func vBez3(p0, p1, p2, p3, t Fl) Fl {
 //@   loop 9 invariant L == len(c.points) && L >= 7 && L % 7 == 0 && i >= 0 && i % 7 == 0
 //@   loop 9 invariant (fresh(c.path) || samebase(c.path, old(c.path))) && (fresh(c.points) || samebase(c.points, old(c.points)))
 //@   loop 9 decreases L - i
+//@   loop 9 step[arc-end-point] (op == 'a' ==> c.currentX == old(c.currentX) + old(c.points[i+5]) && c.currentY == old(c.currentY) + old(c.points[i+6])) && (op != 'a' ==> c.currentX == old(c.points[i+5]) && c.currentY == old(c.points[i+6]))
 
 //@ func (*pathParser).parsePath
 //@   props C18 C07 C01
